@@ -60,6 +60,9 @@ CLAIMED["C18"] = ("P2P: one step from every storage state (3 peers, two sharing 
 CLAIMED["C07"] = ("Per (rate, mode, length, preamble count) one symbolic run over ALL payload contents and both addresses: generator -> as_bytes -> from_bytes -> Terminal: burst count, "
                   "preamble count-down, exactly one started / one data-ended, header pad and block counts, block typing, CRC-9 ok on every confirmed block, data == payload || pad, "
                   "trailing CRC-32 == independent reference. Lengths bounded around the 1-3 block boundaries (rate 3/4 confirmed: single block only).", "6/C07")
+CLAIMED["C15"] = ("Documents generated from the tables of the current source: every LRRP document id x element tokens with symbolic canonical values (all values of each token type), "
+                  "ordered pairs of token types, buffers of two documents, inline constant tables, documents assembled through get_token: parsing terminates, token ids / values / "
+                  "attributes / tables as written, every document re-serialises to the identical bytes, announced lengths account for the buffer. Inherited tables: known finding.", "6/C15")
 NOT_YET = {}
 props = [json.loads(l) for l in open(os.path.join(V, "properties.jsonl"))]
 checks = []
